@@ -229,3 +229,43 @@ fn c16_walop_bad_key() {
     assert!(r2.is_ok() == (l == 4));
     core::mem::forget(r2);
 }
+
+// Native replay of a path-decoder totality counterexample: a text of the witnessed byte length with a two-byte
+// character straddling the witnessed byte index (and the same character at every other position of texts around the
+// blob-path length).  BlobHash::from_relative_path must answer every one of them with a value or an error.
+#[cfg(test)]
+#[test]
+fn replay_c16_path_total() {
+    let v = rv::load();
+    let len = rv::num(&v, "path_strlen") as usize;
+    let mid = rv::num(&v, "split_mid") as usize;
+    let mut texts: Vec<String> = Vec::new();
+    let mk = |len: usize, mid: usize| -> Option<String> {
+        if mid == 0 || mid >= len { return None; }
+        let mut s = String::new();
+        s.push_str(&"a".repeat(mid - 1));
+        s.push('é'); // bytes mid-1, mid: index `mid` is inside the character
+        s.push_str(&"b".repeat(len - mid - 1));
+        Some(s)
+    };
+    if let Some(s) = mk(len, mid) { texts.push(s); }
+    for l in [66usize, 67, 68, 70, 130] {
+        for m in 1..l { if let Some(s) = mk(l, m) { texts.push(s); } }
+    }
+    // ... and the same texts with path separators where a blob path has them
+    let mut more = Vec::new();
+    for t in &texts {
+        let mut b: Vec<char> = t.chars().collect();
+        let n = b.len();
+        if n > 64 { b[n - 61] = '/'; b[n - 64] = '/'; }
+        more.push(b.into_iter().collect::<String>());
+    }
+    texts.extend(more);
+    let mut panics = Vec::new();
+    for t in &texts {
+        let p = std::path::PathBuf::from(t);
+        let r = std::panic::catch_unwind(|| { let _ = BlobHash::from_relative_path(&p); });
+        if r.is_err() { panics.push(format!("{} bytes, multi-byte character at byte {}", t.len(), t.find('é').unwrap_or(0))); }
+    }
+    assert!(panics.is_empty(), "BlobHash::from_relative_path panics on {} of {} paths, e.g. {}", panics.len(), texts.len(), panics[0]);
+}
